@@ -338,10 +338,13 @@ var ExprThemes = map[string][]string{
 		".new = {\"n\": 0} | .new.n += .a", ".lit = [] | .lit += .d", ".tags = [\"x\"] | .tags += [.b]", ".d[] as $x ireduce (0; . += $x)", "(.d[5] // 100) | . += .a", "{\"sum\": 0} | .sum += 1",
 		".e[] as $i ireduce ({\"n\": 0}; .n += $i.v)", "[1, 2] | .[0] += 5", "\"s\" | . += \"t\"", ".acc = {\"k\": []} | .acc.k += [.id]", ".a = 5", ".c.new = \"v\"", "{\"k\": .a}", "[.a]",
 	},
+	"snippet": {
+		".a + .b", ".a * .b", ".a - .b", ".a > .b", ".a == .b", "[.a, .b] | sort", ".l | sort", ".l | max", ".l | min", ".l | unique", ".t += \"3h\"", ".t | format_datetime(\"2006-01-02\")", ".l | sort_by(.)", ".a % .b", "[.l[] | . + 1]",
+	},
 	"variables": {
 		".a as $x | $x + 1", ".d as $d | $d | length", ".a as $x | .d[] | . + $x", ".d[] as $i ireduce (0; . + $i)", ".e[] as $i ireduce ({}; .[$i.k] = $i.v)", ".c.y as $p | .e[] | select(.k == $p)", ".a as $x | .b as $y | [$x, $y]",
 		"with(.c; .x = 1 | .q = 2)", "with(.e[]; .v = .v * 2)", ".c |= with_entries(.key |= \"k_\" + .)", ".c | to_entries | from_entries", ". as $d | $d.a", ".e[] as $x | $x.k",
 	},
 }
 
-var ExprThemeNames = []string{"assignops", "regex", "sort", "encode", "variables", "literals"}
+var ExprThemeNames = []string{"assignops", "regex", "sort", "encode", "variables", "literals", "snippet"}
